@@ -60,9 +60,10 @@ def returned_defined(F, S, fn, label=None):
             # value-initialised trailing members are zero: defined
             out.append(ok("R-INIT", inst, fn.loc(r["id"]), fn.qn, "the returned aggregate defines every field", "%d explicit of %d, rest value-initialised" % (n_explicit, nf)))
         elif t[0] == "ctor":
-            d = ctor_defined(F, rr)
-            missing = set(leaves(F, rr)) - d
             nd0 = fn.n(v)
+            cal = [x for x in F.callees(nd0) if x.d.get("ctor")]
+            d = ctor_cover(F, cal[0]) if cal else ctor_defined(F, rr)
+            missing = set(leaves(F, rr)) - d
             inst = "%s#return:ctor" % inst0
             if nd0.get("copy_or_move") or nd0.get("zero_init") or nd0.get("list_init") or not missing:
                 out.append(ok("R-INIT", inst, fn.loc(r["id"]), fn.qn, "the returned temporary defines every field", "constructor initialises all leaves"))
@@ -286,6 +287,14 @@ def check(F, run, tier):
             run.add(o)
             k += len(o)
     run.floor("returned-records", k, 15)
+    if tier == "thorough":
+        k2 = 0
+        for fn in sorted(F.functions.values(), key=lambda f: f.key):
+            if fn.cfg and not fn.d.get("implicit") and not any(x in fn.file for x in READER_FILES):
+                o = returned_defined(F, S, fn)
+                run.add(o)
+                k2 += len(o)
+        run.extra["thorough_returned_records_outside_anchor_files"] = k2
     # user-constructible serialisable classes: every constructor defines every scalar member
     for cls in sorted(CLASS_LEVEL):
         missing = set(leaves(F, cls)) - ctor_defined(F, cls)
@@ -300,6 +309,8 @@ def check(F, run, tier):
                         "indeterminate after construction: %s" % fmt_paths(missing)))
     sp = spec()
     run.add([o for o in r_layout(F, records=list(sp["records"])) if o.rule == "R-NOPAD"])
+    from . import c04
+    run.add(c04.window_initialised(F, S))
     run.add(zero_filled_names(F, S))
     run.add(vol_index_entries(F, S))
     run.add(sort_before_layout(F, S))
